@@ -541,3 +541,36 @@ Definition rstep (P : params) (s : rsys) (t : nat) (ch : nat) : option (rsys * l
     Some (r_set_thr (r_set_inuse s (upd (r_inuse s) b 0%nat)) t {| r_pc := RIdle; r_script := r_script x |},
           LEv (Ev OStore (cell_inuse b) (mo_ring_store_inuse P) 0 0 0))
   end.
+
+(* ================================================================== *)
+(* 4. init: requested capacity -> capacity, block geometry             *)
+(* (what muggle_*_memory_pool_init computes before any thread runs; the arithmetic is on
+   muggle_sync_t = uint32 as in the C text.  Tied to the C text by the translator obligations
+   gen_*_init_matches_model and printed by both drivers as the "F geom" line.) *)
+
+(* None: init refuses (MUGGLE_ERR_INVALID_PARAM).  Requests above 2^31, whose rounding does not fit
+   muggle_sync_t, are refused too; the drivers never make them (the translator tie covers them). *)
+Definition ts_init_cap (c : nat) : option nat := if Nat.eqb c 0 then None else Some (next_pow2 c).
+Definition sowr_init_cap (c : nat) : option nat := Some (next_pow2 (if Nat.eqb c 0 then 8%nat else c)).
+Definition ring_init_cap (c : nat) : option nat := Some (next_pow2 (if Nat.ltb c 2 then 2%nat else c)).
+
+Local Open Scope Z_scope.
+Definition head_ts : Z := 8.       (* sizeof(muggle_ts_memory_pool_head_t) *)
+Definition head_sowr : Z := 16.    (* sizeof(muggle_sowr_block_head_t) *)
+Definition head_ring : Z := 144.   (* sizeof(muggle_ring_mpool_block_head_t) *)
+Definition cell_ts : Z := 128.     (* sizeof(muggle_ts_memory_pool_head_ptr_t) *)
+
+(* MUGGLE_ALIGN_TRUE_SHARING((muggle_sync_t)sizeof(head) + data_size): round up to the cache line (64) and
+   add two cache lines; every operation wraps at 2^32 *)
+Definition align_ts (hd d : Z) : Z :=
+  let b := (hd + d) mod two32 in
+  let r := ((b + 64) mod two32 - 1) mod two32 in
+  (r - r mod 64 + 128) mod two32.
+
+Definition ts_block_size (d : Z) : Z := align_ts head_ts d.
+Definition sowr_block_size (d : Z) : Z := align_ts head_sowr d.
+(* (muggle_sync_t)muggle_next_pow_of_2(data_size + sizeof(head)) *)
+Definition ring_block_size (d : Z) : Z := zn (next_pow2 (Z.to_nat (d + head_ring))) mod two32.
+(* bytes requested for the data area: capacity * block_size, a product of two muggle_sync_t *)
+Definition slab_bytes (cap bs : Z) : Z := (cap * bs) mod two32.
+Local Close Scope Z_scope.
